@@ -934,8 +934,14 @@ def gen_floor_pools(rng, idx, big=False):
     while holding resources."""
     L = _hdr(rng, idx)
     npools = rng.choice([2, 2, 3])
+    caps = [rng.choice([0, 1, 1, 2, 3, 4]) for _ in range(npools)]
+    # 40 %: every machine takes one unit of pool 0, and pool 0 suffers an outage during which one holder fails
+    # (gives its share back while the others still hold theirs: usage stays above the reduced capacity)
+    shared = rng.random() < 0.4
+    if shared:
+        caps[0] = rng.choice([2, 3, 4])
     for r in range(npools):
-        L.append(['res', str(r), str(rng.choice([0, 1, 1, 2, 3, 4]))])
+        L.append(['res', str(r), str(caps[r])])
     B = FloorBuilder(rng)
     srcs = [B.dev('source', cyc=rng.choice([2, 4, 8]), budget=rng.choice(['inf', '5', '10'])) for _ in range(rng.choice([1, 2, 3]))]
     procs = []
@@ -944,7 +950,9 @@ def gen_floor_pools(rng, idx, big=False):
     gate = B.dev('gate', up=','.join(map(str, srcs)), pred='always') if rng.random() < 0.33 else None
     for j in range(rng.choice([2, 3, 3, 4])):
         pools = rng.sample(range(npools), rng.choice([1, 2, 2, npools]))
-        res = ';'.join(f'{r}:{rng.choice([0, 1, 1, 2])}' for r in pools)
+        if shared:
+            pools = [0] + [r for r in pools if r != 0]
+        res = ';'.join(f'{r}:{1 if (shared and r == 0) else rng.choice([0, 1, 1, 2])}' for r in pools)
         procs.append(B.dev('processor', up=(str(gate) if gate is not None else ','.join(map(str, rng.sample(srcs, rng.randint(1, len(srcs)))))),
                            cyc=rng.choice([0, 4, 8, 12]), res=res, nshut=1, nrest=0))
     B.dev('sink', up=','.join(map(str, procs)), cyc=rng.choice([0, 0, 4]), collect=0)
@@ -953,12 +961,21 @@ def gen_floor_pools(rng, idx, big=False):
     for i, d in enumerate(procs):
         L.append(['target', str(i), f'dev={d}', 'start=-', 'end=-', 'params=0:8:0:0,1:4:0:0'])
     sched = []
+    if shared:
+        t0 = rng.choice([8, 12, 16, 24])
+        d = rng.choice(procs)
+        sched.append((t0, ['addres', '0', str(-caps[0])]))
+        sched.append((t0 + rng.choice([1, 2, 3]), ['schedfailrel', str(d), '0']))
+        sched.append((t0 + rng.choice([6, 10]), ['restore', str(d)]))
+        sched.append((t0 + rng.choice([12, 16, 20]), ['addres', '0', str(caps[0])]))
     for _ in range(rng.randint(2, 8)):
         t = rng.choice([2, 4, 8, 12, 16, 24, 32, 40])
         c = rng.random()
         r = rng.randrange(npools)
         if c < 0.4:
-            k = rng.choice([1, 1, 2])
+            # a third of the reductions are OUTAGES: the whole initial capacity is withdrawn while several
+            # machines may hold shares of it (usage above capacity until they give them back)
+            k = caps[r] if (caps[r] > 0 and rng.random() < 0.34) else rng.choice([1, 1, 2])
             sched.append((t, ['addres', str(r), str(-k)]))
             sched.append((t + rng.choice([4, 8, 16]), ['addres', str(r), str(k)]))
         elif c < 0.55:
